@@ -68,6 +68,7 @@ type SeqStats struct {
 	Steps            int
 	ReadAfterGC      bool
 	GCKinds          map[string]bool
+	GCErrors         []string // error returns of GC cycles (not violations by themselves)
 }
 
 // seqOpts selects optional behaviour of the runner.
@@ -78,6 +79,7 @@ type seqOpts struct {
 	TrackGC     bool // hash the directory around GC cycles
 	KeepDir     bool
 	NoFinalIter bool
+	Points      *pointCounter // counts named points passed during the run
 }
 
 type seqRunner struct {
@@ -118,6 +120,10 @@ func runSeq(c SeqCase, o seqOpts) (st SeqStats, v *Violation) {
 	r := &seqRunner{c: c, o: o, model: map[string][]byte{}, everFlushed: map[string]bool{}}
 	r.stats.GCKinds = map[string]bool{}
 	r.dir = newScratch("seq")
+	if o.Points != nil {
+		o.Points.install()
+		defer o.Points.uninstall()
+	}
 	defer func() {
 		if r.s != nil {
 			// Best effort: the verdict is already decided.
@@ -673,7 +679,10 @@ func (r *seqRunner) doPrimaryGC(i int, op Op) *Violation {
 	_, err := mp.GC(gcCtx(op.B), int64(op.A))
 	r.gcEpilogue(opPGC, before, unflushed, err)
 	if err != nil && !(op.B > 0 && errors.Is(err, context.DeadlineExceeded)) {
-		return viol("gc-error|pgc|"+errClass(err), i, "primary GC returned error: %v", err)
+		// An error return of a cycle is not a violation of any listed
+		// statement by itself (the next cycle starts over); what matters is
+		// that contents stay intact, which the run keeps checking.
+		r.stats.GCErrors = append(r.stats.GCErrors, "pgc: "+errClass(err))
 	}
 	if r.o.AfterQuiet != nil && err == nil {
 		return r.o.AfterQuiet(r, i, "pgc")
@@ -686,7 +695,7 @@ func (r *seqRunner) doIndexGC(i int, op Op) *Violation {
 	_, _, err := r.s.Index().VerifGC(gcCtx(op.B), op.A%2 == 1)
 	r.gcEpilogue(opIGC, before, unflushed, err)
 	if err != nil && !(op.B > 0 && errors.Is(err, context.DeadlineExceeded)) {
-		return viol("gc-error|igc|"+errClass(err), i, "index GC returned error: %v", err)
+		r.stats.GCErrors = append(r.stats.GCErrors, "igc: "+errClass(err))
 	}
 	if r.o.AfterQuiet != nil && err == nil {
 		return r.o.AfterQuiet(r, i, "igc")
